@@ -135,6 +135,9 @@ def run(v, tier, seed):
             rows, accepted, maxline, tr, first = res
             one = [x for x in rows if x.get("summary")][0]
             for k in summ: summ[k] += one.get(k, 0)
+            if one.get("traces_not_describing_the_execution", 0):
+                v.drift += 1
+                vlib.log("DRIFT property=C10 in %d recorded executions the count operations seen through the AtomicCounter hooks do not add up to GetRefCount(): those traces were not given to TLC (the other oracles ran)" % one["traces_not_describing_the_execution"])
             samples.append({"kind": "first lines of a recorded execution validated by TLC against RefTrace", "lines": first})
             for x in rows:
                 if x.get("summary"): continue
